@@ -20,7 +20,7 @@
    compiled inside toml!{..} by rustc against the working tree, compared with the runtime parse (the oracle) and
    with `macro_eval` / `eval` of the extracted model. *)
 From TV Require Import Base.Prelude Base.Utf8 Model.Datetime Model.DatetimeStd Model.Numbers Model.Macro Spec.Defs Spec.MacroSpec.
-From TV Require Import Proofs.MacroSem Proofs.MacroExamples Proofs.MacroEval Proofs.MacroStmt Proofs.MacroDoc Proofs.MacroDt Proofs.MacroTop.
+From TV Require Import Proofs.MacroSem Proofs.MacroExamples Proofs.MacroEval Proofs.MacroStmt Proofs.MacroDoc Proofs.MacroDt Proofs.MacroEq Proofs.MacroTop.
 
 (* ---- THE CLAIM: macro = parse, for every supported valid document ---- *)
 Theorem C19_macro_eq_parse : forall l t,
@@ -32,6 +32,20 @@ Print Assumptions C19_macro_eq_parse.
 Theorem C19_macro_total : forall l, macro_supported l = true -> valid l -> exists t, macro_eval (tokens_of l) = EOk t.
 Proof. exact macro_total. Qed.
 Print Assumptions C19_macro_total.
+
+(* ---- against the unmodified claims specification of C09 (Spec/Defs.v `spec_run` through `spec_eval`) ---- *)
+(* `eval` keeps a table whose own header arrives late at its first-mention position, Spec/Defs.v moves it to the
+   end: `Same` = the same content under every key, recursively (arrays of tables element by element); the order
+   of keys is not compared (a toml::Table is a BTreeMap, or an IndexMap nobody promised an order for) *)
+Theorem C19_eval_is_the_specification : forall l tr, spec_eval l = Some tr ->
+  exists t, eval l = Some (MTab (erase_tree t)) /\ Same mval t tr.
+Proof. exact eval_same_as_spec. Qed.
+Print Assumptions C19_eval_is_the_specification.
+
+Theorem C19_macro_eq_spec : forall l tr, macro_supported l = true -> spec_eval l = Some tr ->
+  exists t, macro_eval (tokens_of l) = EOk (MTab (erase_tree t)) /\ Same mval t tr.
+Proof. exact macro_eq_spec. Qed.
+Print Assumptions C19_macro_eq_spec.
 
 (* ---- the two halves, separately ---- *)
 (* (1) semantic: on every valid document the helper functions build what the definition rules say
